@@ -152,6 +152,8 @@ func checkC13(c *Ctx) {
 		ruleChannelInvariant(c, dv, pf, "R13.5")
 	}
 	c.MinCount("R13.5", 3)
+	c.importRules(constructorRules, []string{"R5.1"}, "R13.6")         // every message of the burst is its own fresh 3-byte value (129 are in flight at once)
+	c.importRules(transportRules, []string{"R15.1", "R15.2"}, "R13.7") // and reaches the port once, unaltered
 	c.MinCount("R13.1", 4)
 	c.MinCount("R13.3", 12)
 	c.DecidedClause("Panic emits exactly ControlChange(AllNotesOff) and a Note Off for each note 0..127 on the current channel, nothing else is reachable from it; its transitive write set is the MIDI-input highlight map only (trackers, counters, octave/semitone/channel/mapping untouched), so later releases go through the unchanged NoteOff (at most one redundant Note Off) and later presses see the same state")
@@ -345,7 +347,10 @@ func ruleExitSequence(c *Ctx, dv *dev) {
 		return t.Op == "len" && strings.HasSuffix(t.Args[0].String(), ".ExitSequence")
 	}
 	sigint, _ := c.P.constValue("syscall", "SIGINT")
-	type res struct{ n int; bad string }
+	type res struct {
+		n   int
+		bad string
+	}
 	agg := map[string]*res{}
 	note := func(k, bad string) {
 		if agg[k] == nil {
